@@ -167,7 +167,11 @@ _strtoll (const char *nptr, char **endptr, int base)
 {
   int neg = 0;
   orc_int64 val = 0;
-  
+
+  /* no conversion performed unless we get past the sign */
+  if (endptr)
+    *endptr = (char *) nptr;
+
   /* Skip all spaces */
   while (isspace (*nptr))
     nptr++;
